@@ -116,11 +116,17 @@ pub struct Case {
     pub feats: Option<Vec<(String, String)>>,
     pub libkeys: Vec<String>,
     pub fea: Option<String>,
+    /// which load entry point / data request: "" = Font::load, otherwise load_requested_data with
+    /// all | nolib | nofeat | none | onlylib | nolayers
+    pub req: String,
 }
 
 impl Case {
     pub fn tokens(&self) -> String {
         let mut t = vec![self.fmt.to_string()];
+        if !self.req.is_empty() {
+            t.push(format!("req={}", self.req));
+        }
         for (k, v) in &self.attrs {
             t.push(format!("{}={}", k, v.token()));
         }
@@ -163,7 +169,9 @@ impl Case {
         let uh = |s: &str| String::from_utf8(unhex(s)).unwrap();
         for t in &toks[1..] {
             let (k, v) = t.split_once('=').unwrap();
-            if k == "lib" {
+            if k == "req" {
+                c.req = v.to_string();
+            } else if k == "lib" {
                 c.lib = true;
             } else if k == "hint" {
                 c.hint.get_or_insert_with(Vec::new);
@@ -257,7 +265,23 @@ impl Ctx {
 
 pub fn observe(ctx: &Ctx, c: &Case) -> String {
     c.write_tree(&ctx.dir);
-    match guarded(|| Font::load(&ctx.dir)) {
+    let request = |name: &str| -> norad::DataRequest<'static> {
+        match name {
+            "all" => norad::DataRequest::default(),
+            "nolib" => norad::DataRequest::default().lib(false),
+            "nofeat" => norad::DataRequest::default().features(false),
+            "none" => norad::DataRequest::none(),
+            "onlylib" => norad::DataRequest::none().lib(true),
+            "nolayers" => norad::DataRequest::default().layers(false).lib(false).groups(false).kerning(false),
+            other => panic!("request {}", other),
+        }
+    };
+    let loaded = if c.req.is_empty() {
+        guarded(|| Font::load(&ctx.dir))
+    } else {
+        guarded(|| Font::load_requested_data(&ctx.dir, request(&c.req)))
+    };
+    match loaded {
         Err(_) => "panic".to_string(),
         Ok(Err(e)) => {
             let class = match &e {
@@ -601,6 +625,22 @@ pub fn gen(tier: &str, seed: u64, out: &mut dyn Write) {
     for c in &robo {
         emit(out, &ctx, c);
     }
+    // the same trees through load_requested_data: the conversion of font info and features must not depend
+    // on what else the caller asked for (lib off, features off, nothing, only the lib, no layers)
+    for c in &robo {
+        for req in ["all", "nolib", "nofeat", "none", "onlylib", "nolayers"] {
+            let mut c2 = c.clone();
+            c2.req = req.to_string();
+            emit(out, &ctx, &c2);
+        }
+    }
+    for (fmt, table) in tables.iter() {
+        for req in ["all", "nolib", "nofeat", "none", "onlylib", "nolayers"] {
+            let attrs: Vec<(String, Val)> =
+                table.iter().enumerate().map(|(n, (k, ty))| (k.to_string(), unique_attr(*fmt, k, ty, n + 5))).collect();
+            emit(out, &ctx, &Case { fmt: *fmt, attrs, req: req.to_string(), lib: true, libkeys: vec!["com.example.keep".into()], fea: Some("# fea\n".into()), ..Default::default() });
+        }
+    }
 
     // --- random combinations
     let n_random = if thorough { 6000 } else { 500 };
@@ -647,6 +687,9 @@ pub fn gen(tier: &str, seed: u64, out: &mut dyn Write) {
             if rng.chance(1, 2) {
                 c.libkeys.push("com.example.keep".into());
             }
+        }
+        if rng.chance(1, 3) {
+            c.req = rng.pick(&["all", "nolib", "nofeat", "none", "onlylib", "nolayers"]).to_string();
         }
         emit(out, &ctx, &c);
     }
